@@ -23,7 +23,8 @@ RULE_TEXT = ('runs = deterministic sweep over defect classes (15) x every varian
              'class, mode/command).')
 REACH_PROBES = ['class_syntax', 'class_unknown_instruction', 'class_undefined_symbol', 'class_defined_later',
                 'class_wrong_type', 'class_illegal_relativity', 'class_missing_home_file', 'class_missing_file_absolute_path', 'class_bad_integer',
-                'class_bad_integer_expression', 'class_bad_regex', 'class_act_syntax', 'class_stub_validation',
+                'class_bad_integer_expression', 'class_bad_regex', 'class_act_syntax', 'class_act_defect',
+                'act_defect_command_line_actor', 'act_defect_file_actor', 'act_defect_source_actor', 'class_stub_validation',
                 'class_stub_symbols', 'class_suite_shared_instruction', 'class_none_symbol_cmd', 'last_line_of_cleanup', 'mode_normal', 'mode_keep',
                 'mode_act', 'cmd_symbol', 'cmd_symbol_name', 'control_ok']
 
@@ -71,6 +72,25 @@ DEFECTS = {
                   ("file r.txt = 'a' -transformed-by filter contents matches '['", ALLP),
                   ("stdout matches '('", ('assert',))],
 }
+# defects in the [act] phase, per kind of actor: (configuration line, valid contents, {class: [defective contents]})
+ACT_DEFECTS = [
+    (None, ['% atc ok-arg'],
+     {'undefined_symbol': [['% atc @[UNDEF]@'], ['@ UNDEF_PROG'], ['% atc "quoted @[UNDEF]@ text"'], ['$ atc @[UNDEF]@']],
+      'defined_later': [['% atc @[LATER]@'], ['$ atc @[LATER]@']],
+      'wrong_type': [['@ STRSYM'], ['% atc @[LMSYM]@']],
+      'missing_home_file': [['nofile-exe'], ['% atc -existing-file nofile.txt'], ['-python -existing-file nofile.py']]}),
+    ('actor = file % atc', ['existing.txt ok-arg'],
+     {'undefined_symbol': [['existing.txt @[UNDEF]@']],
+      'defined_later': [['existing.txt @[LATER]@']],
+      'wrong_type': [['existing.txt @[LMSYM]@']],
+      'missing_home_file': [['nofile.py']]}),
+    ('actor = source % atc', ['source text'],
+     {'undefined_symbol': [['source text @[UNDEF]@'], ['line one', 'line two @[UNDEF]@ end']],
+      'defined_later': [['source text @[LATER]@']],
+      'wrong_type': [['source text @[LMSYM]@']]}),
+]
+ACT_SPECS = [(ai, cls, vi) for ai, (_, _, d) in enumerate(ACT_DEFECTS) for cls in sorted(d) for vi in range(len(d[cls]))]
+
 # the symbol definitions, each followed by a *legal* reference to the symbol: a defective reference inserted later is
 # then never the first reference to its symbol (a validator that checks only the first reference would miss it)
 # (instruction with {SYM}, valid value, invalid value, phases)
@@ -84,6 +104,8 @@ SUITE_SHARED = [
 
 BASE_DEFS = ['def string STRSYM = s', 'def list LISTSYM = a b', 'def path HOMEP = -rel-home hp',
              'def path HOMEP2 = @[HOMEP]@/sub', 'def path ABSP = /no/such/dir', 'def program ECHOP = % echo-prog pa',
+             'def line-matcher LMSYM = line-num == 1',
+             "file legal-ref-0.txt = 'a' -transformed-by filter LMSYM",
              'run @ ECHOP legal-ref-arg',
              'file legal-ref-1.txt = "@[STRSYM]@ @[LISTSYM]@"',
              'copy @[HOMEP]@/sub/keep.txt legal-ref-2.txt',
@@ -139,6 +161,14 @@ def sweep_specs():
             for pos in ('first', 'middle', 'last'):
                 for mode in ('normal', 'keep'):
                     S.append({'cls': cls, 'variant': 0, 'phase': ph, 'pos': pos, 'cmd': mode, 'step': step, 'kind': kind})
+    # defects in [act], for each kind of actor that has contents; a symbol that is defined only *after* [act] (in any of
+    # the later phases) is as undefined for the action to check as one that is never defined
+    for (ai, cls, vi) in ACT_SPECS:
+        for mode in ('normal', 'keep', 'act'):
+            laters = ('before-assert', 'assert', 'cleanup') if cls == 'defined_later' else (None,)
+            for lp in laters:
+                S.append({'cls': 'act_defect', 'variant': [ai, cls, vi], 'phase': 'act', 'pos': 'first', 'cmd': mode,
+                          'later_phase': lp})
     # an instruction supplied by a suite (parsed once, part of every case) that needs a per-case symbol: the first case
     # of the suite run defines a valid value, the second an invalid one
     for vi in range(len(SUITE_SHARED)):
@@ -176,6 +206,10 @@ def make_plan(i, master, tier):
             spec = {'cls': 'suite_shared_instruction', 'variant': vi, 'phase': g.choice(SUITE_SHARED[vi][3]), 'pos': 'last'}
         elif r < 0.08:
             spec = {'cls': 'act_syntax', 'variant': g.choice([0, 1]), 'phase': 'act', 'pos': 'first'}
+        elif r < 0.16:
+            ai, cls, vi = g.choice(ACT_SPECS)
+            spec = {'cls': 'act_defect', 'variant': [ai, cls, vi], 'phase': 'act', 'pos': 'first',
+                    'later_phase': g.choice(['before-assert', 'assert', 'cleanup']) if cls == 'defined_later' else None}
         elif r < 0.25:
             step, kind, cls = g.choice([('symbols', 'undefined_symbol', 'stub_symbols'),
                                         ('pre_sds', 'svh_validation', 'stub_validation')])
@@ -220,6 +254,20 @@ def build(seed, tier, case, spec, g, sweep):
         spec['text'] = text
     elif cls == 'act_syntax':
         case['act'] = {'lines': [["'unterminated quote", '% atc "unterminated'][spec['variant']]]}
+    elif cls == 'act_defect':
+        ai, dcls, vi = spec['variant']
+        conf, valid, defects = ACT_DEFECTS[ai]
+        if conf:
+            case['conf'].append({'k': 'real', 'text': conf})
+            control['conf'].append({'k': 'real', 'text': conf})
+        control['act'] = {'lines': list(valid)}
+        case['act'] = {'lines': list(defects[dcls][vi])}
+        spec['text'] = '\n'.join(defects[dcls][vi])
+        if dcls == 'defined_later':
+            lp = spec['later_phase']
+            at = g.choice([0, len(case[lp])]) if not sweep else (0 if lp != 'cleanup' else len(case[lp]))
+            case[lp].insert(at, {'k': 'real', 'text': 'def string LATER = l', 'e': 1})
+            control[lp].insert(at, {'k': 'real', 'text': 'def string LATER = l'})
     elif cls in ('stub_symbols', 'stub_validation'):
         if ph == 'act':
             faults.append({'id': 'act', 'step': spec['step'], 'kind': spec['kind']})
@@ -331,6 +379,8 @@ def execute(plan, scratch):
     pr[('mode_' if cmd in ('normal', 'keep', 'act') else 'cmd_') + cmd] = 1
     if control_ok:
         pr['control_ok'] = 1
+    if spec['cls'] == 'act_defect':
+        pr['act_defect_%s_actor' % ['command_line', 'file', 'source'][spec['variant'][0]]] = 1
     hist['probes'] = pr
     hist['armed'] = {spec['cls']: 1}
     hist['fired'] = {f['kind']: 1 for f in sim.fired}
@@ -403,8 +453,8 @@ def classify_known(plan, hist, violation, kf):
 
 def signature(plan, hist):
     s = plan['spec']
-    return hist['control_ok'], (s['cls'], s['variant'], s['phase'], s['pos'] if s['pos'] != 'rand' else 'rand',
-                                s['cmd'], s.get('step'))
+    return hist['control_ok'], (s['cls'], tuple(s['variant']) if isinstance(s['variant'], list) else s['variant'], s['phase'], s['pos'] if s['pos'] != 'rand' else 'rand',
+                                s['cmd'], s.get('step'), s.get('later_phase'))
 
 
 def sample_view(plan, hist):
@@ -419,7 +469,9 @@ def normalize(plan):
     if spec['cls'] == 'suite_shared_instruction':
         return plan
     n_e = sum(1 for ph in PHASES for it in case.get(ph, []) if it.get('e'))
-    need = {'defined_later': 2, 'act_syntax': 0, 'none': 0}.get(spec['cls'], 1)
+    need = {'defined_later': 2, 'act_syntax': 0, 'none': 0, 'act_defect': 0}.get(spec['cls'], 1)
+    if spec['cls'] == 'act_defect' and spec['variant'][1] == 'defined_later':
+        need = 1
     if spec['cls'] in ('stub_symbols', 'stub_validation') and spec['phase'] == 'act':
         need = 0
     if n_e != need:
